@@ -34,3 +34,32 @@ Theorem C14_single_insertion_keeps_wf2 `{Sig} : forall E n ks e nd1 nd2 t c w cn
   run E (insert_vertex_on_edge n ks e nd1 nd2 t) c w cnt = (Done tt, w', cnt') -> wf2 n w'.
 Proof. intros E n ks e nd1 nd2 t c w cnt w' cnt'. exact (insert_vertex_wf E n w ks e nd1 nd2 t c cnt w' cnt'). Qed.
 Print Assumptions C14_single_insertion_keeps_wf2.
+
+(** Exact images after the insertion of one vertex (k = 1), on every store: the edge is replaced by two consecutive
+    segments -- on both sides, glued segment by segment, when it has two darts -- and the 0- / 1- / 2-images of every
+    other dart are untouched (face adjacency, other edges, end darts).  Boundary edge e -> b1: e -> nd1 -> b1.
+    Two-dart edge (e | d2), e -> b1, d2 -> c1: e -> nd1 -> b1, d2 -> nd2 -> c1, e | nd2, d2 | nd1. *)
+From HC Require Import Map2.SwapTopo Map2.InsertTopo.
+Import ListNotations.
+Theorem C14_single_insertion_boundary_images `{Sig} : forall E n ks e nd1 nd2 t c w cnt w' cnt',
+  let b1 := beta w 1 e in
+  beta w 2 e = 0 -> NoDup [e; b1; nd1] -> ~ In 0 [e; b1; nd1] ->
+  run E (insert_vertex_on_edge n ks e nd1 nd2 t) c w cnt = (Done tt, w', cnt') ->
+  forall i x, beta w' i x =
+    if i =? 1 then (if x =? e then nd1 else if x =? nd1 then b1 else beta w 1 x)
+    else if i =? 0 then (if x =? nd1 then e else if x =? b1 then nd1 else beta w 0 x)
+    else beta w i x.
+Proof. exact insert_vertex_topology_boundary. Qed.
+Print Assumptions C14_single_insertion_boundary_images.
+
+Theorem C14_single_insertion_inner_images `{Sig} : forall E n ks e nd1 nd2 t c w cnt w' cnt',
+  let d2 := beta w 2 e in let b1 := beta w 1 e in let c1 := beta w 1 d2 in
+  NoDup [e; d2; b1; c1; nd1; nd2] -> ~ In 0 [e; d2; b1; c1; nd1; nd2] ->
+  run E (insert_vertex_on_edge n ks e nd1 nd2 t) c w cnt = (Done tt, w', cnt') ->
+  forall i x, beta w' i x =
+    if i =? 1 then (if x =? e then nd1 else if x =? nd1 then b1 else if x =? d2 then nd2 else if x =? nd2 then c1 else beta w 1 x)
+    else if i =? 0 then (if x =? nd1 then e else if x =? b1 then nd1 else if x =? nd2 then d2 else if x =? c1 then nd2 else beta w 0 x)
+    else if i =? 2 then (if x =? e then nd2 else if x =? nd2 then e else if x =? d2 then nd1 else if x =? nd1 then d2 else beta w 2 x)
+    else beta w i x.
+Proof. exact insert_vertex_topology_inner. Qed.
+Print Assumptions C14_single_insertion_inner_images.
